@@ -119,6 +119,28 @@ theorem spec_of_diff_from_empty (t : List Key) (ht : t ≠ []) :
     · rw [hd]; simp [sumLens]
   rw [hu, hd]; simp
 
+/-- `unpack_moves (diff from to)`, for ALL `from`, `to` -/
+theorem unpack_diff (f t : List Key) :
+    unpackMoves (diff f t) = ((diff f t).moved.flatMap singles, (diff f t).added) := by
+  unfold unpackMoves
+  apply unpackLoop_complete
+  · unfold diff
+    split
+    · simp
+    · split
+      · simp
+      · split
+        · simp
+        · exact group_len_pos _ (diffFold f t _).2.2.2
+  · unfold diff
+    split
+    · simp [sumLens]
+    · split
+      · simp [sumLens]
+      · split
+        · simp [sumLens]
+        · simp
+
 /-! ### `apply_diff` after the `clear` test -/
 
 /-- removals, move out, resize, move in, additions, drain — with the command lists as parameters -/
